@@ -1,7 +1,7 @@
 import Juniper.Proofs.ParDoState
 /-! Inductive invariants of the `parallel.Do` / `DoContext` LTS, part 4: failure tracking (a failed call
 or a skipped index leaves a trace until the return), the `parallelism - 1` bound on calls that begin
-with a cancelled context, and the positional result slice of `Map` / `MapContext`. -/
+with a cancelled context (the positional result slice of `Map` / `MapContext`: `Proofs/ParWrap.lean`). -/
 set_option linter.unusedSimpArgs false
 set_option linter.unusedVariables false
 
@@ -22,7 +22,7 @@ structure Inv4 (cfg : Cfg) (s : St) : Prop where
 
 theorem inv4_init (cfg : Cfg) (hs : cfg.code.Sound) : Inv4 cfg (init cfg) := by
   unfold init
-  split <;> refine ⟨?_, ?_⟩ <;> simp [hasFail, hs.seqLoop]
+  split <;> refine ⟨?_, ?_⟩ <;> simp [hasFail, hs.seqLoop, hs.seqInit, hs.seqPost, effN_eq hs]
   · split <;> simp [isRetErr, isDone]; omega
   · simp [isRetErr, isDone]
 
@@ -37,7 +37,7 @@ macro_rules
          have ⟨iD, iM, iS, iG, iR, iE⟩ := $h2
          refine ⟨?_, ?_⟩ <;>
            simp [Option.isSome_iff_ne_none, Res.isErr, hasFail, cnt_set hw, isDone, isRetErr, ($hs).workerCancelled,
-             ($hs).workerFailed, ($hs).seqStops, ($hs).seqLoop, ($hs).workerDone, ($hs).fetch, ($hs).counterDelta] at * <;> grind))
+             ($hs).workerFailed, ($hs).seqStops, ($hs).seqLoop, ($hs).seqInit, ($hs).seqPost, effN_eq $hs, ($hs).workerDone, ($hs).fetch, ($hs).counterDelta] at * <;> grind))
 
 theorem inv4_step {cfg : Cfg} (hs : cfg.code.Sound) {s s' : St} {l : Label} (h2 : Inv2 cfg s) (hi : Inv4 cfg s)
     (h : step cfg s l = some s') : Inv4 cfg s' := by
@@ -100,7 +100,7 @@ macro_rules
          have ⟨iD, iM, iS, iG, iR, iE⟩ := $h2
          refine ⟨?_⟩ <;>
            simp [Option.isSome_iff_ne_none, startedCancelled_eq, ctxCancelled, cnt_set hw, isCall, ($hs).workerCancelled,
-             ($hs).workerFailed, ($hs).seqStops, ($hs).seqLoop] at * <;> grind))
+             ($hs).workerFailed, ($hs).seqStops, ($hs).seqLoop, ($hs).seqInit, ($hs).seqPost, effN_eq $hs] at * <;> grind))
 
 theorem inv5_step {cfg : Cfg} (hs : cfg.code.Sound) {s s' : St} {l : Label} (h2 : Inv2 cfg s) (hi : Inv5 cfg s)
     (h : step cfg s l = some s') : Inv5 cfg s' := by
@@ -121,69 +121,44 @@ theorem inv5_step {cfg : Cfg} (hs : cfg.code.Sound) {s s' : St} {l : Label} (h2 
        refine ⟨?_⟩ <;> simp [startedCancelled_eq, isCall, *] at * <;> grind)
 
 
-/-- the positional result slice: `out[i]` holds what the call for index `i` returned -/
-structure Inv6 (cfg : Cfg) (s : St) : Prop where
-  O1 : s.out.length = cfg.n
-  O2 : ∀ i v, (i, Res.ok v) ∈ s.ended → s.out[i]? = some (some v)
-
-theorem inv6_init (cfg : Cfg) : Inv6 cfg (init cfg) := by
-  unfold init
-  split <;> refine ⟨?_, ?_⟩ <;> simp
-
 theorem endedCount_pos_of_mem {s : St} {i : Nat} {r : Res} (h : (i, r) ∈ s.ended) : 0 < endedCount s i := by
   unfold endedCount
   apply List.countP_pos_iff.2
   exact ⟨(i, r), h, by simp⟩
 
-theorem writeOut_spec {out : List (Option Nat)} {ended : List (Nat × Res)} {i : Nat} (r : Res)
-    (hlt : i < out.length) (hnot : ∀ r', (i, r') ∉ ended)
-    (o2 : ∀ j v, (j, Res.ok v) ∈ ended → out[j]? = some (some v)) :
-    ∀ j v, (j, Res.ok v) ∈ ended ++ [(i, r)] → (writeOut out i r)[j]? = some (some v) := by
-  intro j v hm
-  simp at hm
-  rcases hm with hm | ⟨rfl, rfl⟩
-  · have hji : i ≠ j := by intro hji; subst hji; exact hnot _ hm
-    cases r <;> simp [writeOut, List.getElem?_set_ne hji, o2 j v hm]
-  · simp [writeOut, hlt]
+/-- a call in progress has an index below `n` and has not ended before -/
+theorem running_call_fresh {cfg : Cfg} {s : St} (h1 : Inv1 cfg s) {w i : Nat} (hw : s.ws[w]? = some (Pc.inF i)) :
+    i < cfg.n ∧ ∀ r', (i, r') ∉ s.ended := by
+  have hA := h1.A i
+  have hB := h1.B i
+  have hr : 1 ≤ runC s i := by
+    have h := countP_ge_of (isRun i) hw
+    have e : isRun i (Pc.inF i) = true := by simp [isRun]
+    rw [e] at h; exact h
+  have hb : 0 < begunCount s i := by omega
+  constructor
+  · by_cases hc : ((i : Int) ≤ s.x ∧ i < cfg.n)
+    · exact hc.2
+    · rw [if_neg hc] at hA; omega
+  · intro r' hm
+    have := endedCount_pos_of_mem hm
+    have : begunCount s i ≤ 1 := by
+      by_cases hc : ((i : Int) ≤ s.x ∧ i < cfg.n)
+      · rw [if_pos hc] at hA; omega
+      · rw [if_neg hc] at hA; omega
+    omega
 
-theorem writeOut_length (out : List (Option Nat)) (i : Nat) (r : Res) : (writeOut out i r).length = out.length := by
-  cases r <;> simp [writeOut]
-
-theorem inv6_step {cfg : Cfg} {s s' : St} {l : Label} (h1 : Inv1 cfg s) (hi : Inv6 cfg s)
-    (h : step cfg s l = some s') : Inv6 cfg s' := by
-  have ⟨o1, o2⟩ := hi
-  cases l with
-  | fEnd w r =>
-    have key : ∀ i, s.ws[w]? = some (Pc.inF i) → i < cfg.n ∧ ∀ r', (i, r') ∉ s.ended := by
-      intro i hw
-      have hA := h1.A i
-      have hB := h1.B i
-      have hr : 1 ≤ runC s i := by
-        have h := countP_ge_of (isRun i) hw
-        have e : isRun i (Pc.inF i) = true := by simp [isRun]
-        rw [e] at h; exact h
-      have hb : 0 < begunCount s i := by omega
-      constructor
-      · by_cases hc : ((i : Int) ≤ s.x ∧ i < cfg.n)
-        · exact hc.2
-        · rw [if_neg hc] at hA; omega
-      · intro r' hm
-        have := endedCount_pos_of_mem hm
-        have : begunCount s i ≤ 1 := by
-          by_cases hc : ((i : Int) ≤ s.x ∧ i < cfg.n)
-          · rw [if_pos hc] at hA; omega
-          · rw [if_neg hc] at hA; omega
-        omega
-    pardo_cases h =>
-      (have hw := ‹_[_]? = some _›
-       have ⟨hlt, hnot⟩ := key _ hw
-       exact ⟨by simp [writeOut_length, o1], writeOut_spec (out := s.out) (ended := s.ended) _ (by rw [o1]; exact hlt) hnot o2⟩)
-  | fetch w => pardo_cases h => exact ⟨o1, o2⟩
-  | check w => pardo_cases h => exact ⟨o1, o2⟩
-  | begin w => pardo_cases h => exact ⟨o1, o2⟩
-  | egDone w => pardo_cases h => exact ⟨o1, o2⟩
-  | callerCancel => pardo_cases h => exact ⟨o1, o2⟩
-  | ret => pardo_cases h => exact ⟨o1, o2⟩
+/-- a call about to begin has an index below `n` -/
+theorem pending_call_lt {cfg : Cfg} {s : St} (h1 : Inv1 cfg s) {w i : Nat} (hw : s.ws[w]? = some (Pc.call i)) :
+    i < cfg.n := by
+  have hA := h1.A i
+  have hp : 1 ≤ pendC s i := by
+    have h := countP_ge_of (isPend i) hw
+    have e : isPend i (Pc.call i) = true := by simp [isPend]
+    rw [e] at h; exact h
+  by_cases hc : ((i : Int) ≤ s.x ∧ i < cfg.n)
+  · exact hc.2
+  · rw [if_neg hc] at hA; omega
 
 theorem inv4 {cfg : Cfg} (hs : cfg.code.Sound) {s : St} (h : Reach cfg s) : Inv4 cfg s := by
   induction h with
@@ -194,10 +169,5 @@ theorem inv5 {cfg : Cfg} (hs : cfg.code.Sound) {s : St} (h : Reach cfg s) : Inv5
   induction h with
   | init => exact inv5_init cfg
   | step hr hstep ih => exact inv5_step hs (inv2 hs hr) ih hstep
-
-theorem inv6 {cfg : Cfg} (hs : cfg.code.Sound) {s : St} (h : Reach cfg s) : Inv6 cfg s := by
-  induction h with
-  | init => exact inv6_init cfg
-  | step hr hstep ih => exact inv6_step (inv1 hs hr) ih hstep
 
 end Juniper.Proofs.ParDo
